@@ -124,6 +124,8 @@ pub struct GenCtx<'a> {
     pub has_item: bool,
     pub has_lst: bool,
     pub has_pair: bool,
+    /// the program has `open/1` facts: facts whose variables occur only inside a structure
+    pub has_open: bool,
 }
 
 fn small_const(s: &mut dyn Src) -> Term {
@@ -215,7 +217,7 @@ fn leaf_goal(s: &mut dyn Src, cx: &GenCtx, m: &mut Mode) -> Goal {
     let g = match weighted(s, &w) {
         0 => {
             // typed base facts: num/1, item/1, lst/1, pair/2
-            let opts: Vec<u32> = vec![cx.has_num as u32 * 3, cx.has_item as u32 * 3, cx.has_lst as u32 * 2, cx.has_pair as u32 * 2, 1];
+            let opts: Vec<u32> = vec![cx.has_num as u32 * 3, cx.has_item as u32 * 3, cx.has_lst as u32 * 2, cx.has_pair as u32 * 2, 1, cx.has_open as u32 * 2];
             match weighted(s, &opts) {
                 0 => { let v = fresh_or_any(s, m); Mode::add(&mut m.num, &v); Goal::Call("num".into(), vec![Term::Var(v)]) }
                 1 => { let v = fresh_or_any(s, m); Mode::add(&mut m.atom, &v); Goal::Call("item".into(), vec![Term::Var(v)]) }
@@ -225,6 +227,7 @@ fn leaf_goal(s: &mut dyn Src, cx: &GenCtx, m: &mut Mode) -> Goal {
                     if v != w2 { Mode::add(&mut m.atom, &v); Mode::add(&mut m.num, &w2); }
                     Goal::Call("pair".into(), vec![Term::Var(v), Term::Var(w2)])
                 }
+                5 => { let v = fresh_or_any(s, m); Goal::Call("open".into(), vec![Term::Var(v)]) }
                 _ => Goal::Call("num".into(), vec![small_const(s)]),
             }
         }
@@ -318,7 +321,12 @@ fn leaf_goal(s: &mut dyn Src, cx: &GenCtx, m: &mut Mode) -> Goal {
                         // own test_format_for_print_pred shows) or fewer (an unfilled marker is replaced by nothing)
                         let nargs = match weighted(s, &[6, 1, 1]) { 0 => k, 1 => k + 1 + s.draw(2) as usize, _ => k.saturating_sub(1 + s.draw(2) as usize) };
                         for _ in 0..nargs { args.push(ground_operand(s, m)); }
-                        Goal::BuiltIn("print".into(), args)
+                        // the format string may reach print through a bound variable ("showing each argument's bound value")
+                        if chance(s, 1, 4) {
+                            let fv = format!("$F{}", fnv(match &args[0] { Term::Atom(a) => a.as_str(), _ => "" }) % 1000);
+                            let f = std::mem::replace(&mut args[0], Term::Var(fv.clone()));
+                            Goal::And(vec![Goal::Unify(Term::Var(fv), f), Goal::BuiltIn("print".into(), args)])
+                        } else { Goal::BuiltIn("print".into(), args) }
                     } else {
                         let mut args = vec![Term::atom(pick(s, &["p", "q:", "#"]))];
                         for _ in 0..k { args.push(ground_operand(s, m)); }
@@ -388,7 +396,7 @@ pub fn gen_body(s: &mut dyn Src, cx: &GenCtx, head_vars: &[String]) -> Goal {
     conj(s, cx, &mut m, 0, 4, false)
 }
 
-fn base_facts(s: &mut dyn Src) -> (Vec<Clause>, bool, bool, bool, bool) {
+fn base_facts(s: &mut dyn Src) -> (Vec<Clause>, bool, bool, bool, bool, bool) {
     let mut cl = vec![];
     let fact = |name: &str, args: Vec<Term>| Clause { name: name.to_string(), args, body: None };
     let nn = 1 + s.draw(4);
@@ -402,7 +410,20 @@ fn base_facts(s: &mut dyn Src) -> (Vec<Clause>, bool, bool, bool, bool) {
     for _ in 0..nl { cl.push(fact("lst", vec![ground_list(s, 0)])); }
     let np = s.draw(3);
     for _ in 0..np { cl.push(fact("pair", vec![Term::atom(pick(s, &ATOMS)), Term::Int(s.draw(4) as i64)])); }
-    (cl, true, ni > 0, nl > 0, np > 0)
+    // facts that leave the caller's variable bound to a structure with unbound variables inside
+    let no = if chance(s, 1, 3) { 1 + s.draw(2) } else { 0 };
+    for _ in 0..no {
+        let t = match s.draw(6) {
+            0 => Term::Cmp("f".into(), vec![Term::var("$X")]),
+            1 => Term::List(vec![Term::var("$X"), Term::var("$Y")], None),
+            2 => Term::Cmp("g".into(), vec![Term::var("$X"), Term::var("$X")]),
+            3 => Term::List(vec![Term::var("$X")], Some(Box::new(Term::var("$Y")))),
+            4 => Term::Cmp("g".into(), vec![Term::atom("a"), Term::var("$Y")]),
+            _ => Term::Cmp("f".into(), vec![Term::List(vec![Term::var("$Z")], None)]),
+        };
+        cl.push(fact("open", vec![t]));
+    }
+    (cl, true, ni > 0, nl > 0, np > 0, no > 0)
 }
 
 const PNAMES: [&str; 5] = ["p", "q", "r", "s", "t"];
@@ -410,7 +431,7 @@ const PNAMES: [&str; 5] = ["p", "q", "r", "s", "t"];
 /// Family (i)/(iii): generated predicates. `recursive` allows calls to any predicate
 /// (including itself); otherwise predicate i calls only predicates < i (stratified).
 pub fn gen_program(s: &mut dyn Src, feat: Features, recursive: bool) -> Program {
-    let (mut clauses, has_num, has_item, has_lst, has_pair) = base_facts(s);
+    let (mut clauses, has_num, has_item, has_lst, has_pair, has_open) = base_facts(s);
     let npred = 1 + s.draw(4) as usize;
     let sigs: Vec<PredSig> = (0..npred).map(|i| PredSig { name: PNAMES[i].to_string(), arity: s.draw(4) as usize }).collect();
     for i in 0..npred {
@@ -424,7 +445,7 @@ pub fn gen_program(s: &mut dyn Src, feat: Features, recursive: bool) -> Program 
             let is_fact = chance(s, 2, 5);
             let body = if is_fact { None } else {
                 let callable: &[PredSig] = if recursive { &sigs[..] } else { &sigs[..i] };
-                let cx = GenCtx { feat, callable, has_num, has_item, has_lst, has_pair };
+                let cx = GenCtx { feat, callable, has_num, has_item, has_lst, has_pair, has_open };
                 let mut hv = vec![];
                 for a in &args { a.vars(&mut hv); }
                 Some(gen_body(s, &cx, &hv))
@@ -492,7 +513,7 @@ pub fn gen_template_program(s: &mut dyn Src, feat: Features) -> Program {
         let idx: Vec<usize> = clauses.iter().enumerate().filter(|(_, c)| c.name == name).map(|(i, _)| i).collect();
         if idx.len() == 2 { clauses.swap(idx[0], idx[1]); }
     }
-    let (base, has_num, has_item, has_lst, has_pair) = base_facts(s);
+    let (base, has_num, has_item, has_lst, has_pair, has_open) = base_facts(s);
     clauses.extend(base);
     // the query predicate: a generated rule combining template calls with generated goals
     let l1 = if chance(s, 1, 2) { int_list(s, 4) } else { atom_list(s, 4) };
@@ -513,7 +534,7 @@ pub fn gen_template_program(s: &mut dyn Src, feat: Features) -> Program {
         }
     };
     let sigs: Vec<PredSig> = vec![];
-    let cx = GenCtx { feat, callable: &sigs, has_num, has_item, has_lst, has_pair };
+    let cx = GenCtx { feat, callable: &sigs, has_num, has_item, has_lst, has_pair, has_open };
     let nrules = 1 + s.draw(2);
     for _ in 0..nrules {
         let mut m = Mode::default();
